@@ -56,6 +56,30 @@ class HandlerBase(BaseException):
     """a BaseException that is neither Exception nor CancelledError (KeyboardInterrupt-like)"""
 
 
+def _server_close(se, loop, st):
+    """Server.close() on a server that listens on no socket.  Server.close() refuses a server that was not
+    started; the two attributes it looks at are found by role (the ones __init__ left empty whose name speaks of
+    the listening server) and given stand-ins.  If that does not work any more, fall back to what Server.close()
+    does to this connection through the public AbstractHandler.close()."""
+    srv = se.server
+    try:
+        for name, val in list(vars(srv).items()):
+            if val is None and 'server' in name.lower():
+                if 'fut' in name.lower():
+                    setattr(srv, name, loop.create_future())
+                else:
+                    setattr(srv, name, type('Listening', (), {'close': lambda s: None,
+                                                              'wait_closed': lambda s: None})())
+        srv.close()
+        st['close_via'] = 'Server.close'
+    except Exception:
+        try:
+            se.proto.handler.close()
+            st['close_via'] = 'handler.close'
+        except Exception:
+            st['close_via'] = 'unavailable'
+
+
 class HookError(RuntimeError):
     """raised by a listener"""
 
@@ -132,7 +156,7 @@ def _run(case, loop):
             except Exception:
                 st['fired'] = 'reset-refused'      # the client's own h2 knows the stream is closed already
         else:
-            box['se'].server.close()
+            _server_close(box['se'], loop, st)
 
     def do_fin(f, tag):
         if f[0] == 'ret':
@@ -239,8 +263,6 @@ def _run(case, loop):
     listen(se.server, SendTrailingMetadata, hook('T'))
     listen(se.server, RecvRequest, hook('-'))
     listen(se.server, RecvMessage, hook('-'))
-    se.server._server = type('S', (), {'close': lambda s: None, 'wait_closed': None})()
-    se.server._server_closed_fut = loop.create_future()
     loop.run_quiet(1.0)
     se.peer.take_events()
     peer = se.peer
@@ -270,14 +292,17 @@ def _run(case, loop):
             peer.h2.send_data(sid, data, end_stream=eof)
     if case.get('paused0'):
         se.transport.pause()
+    before = set(asyncio.all_tasks(loop))
     peer.flush()                       # the whole request arrives before the handler task's first step
-    t0 = loop.time()
+    # the task serving this request, found by role: the one task the server created for these frames
+    new_tasks = [t for t in asyncio.all_tasks(loop) if t not in before]
+    task = new_tasks[0] if len(new_tasks) == 1 else None
     loop.run_quiet(4.0)
-    tasks = list(se.handler._tasks.values()) + list(se.handler._cancelled)
-    task = tasks[0] if tasks else None
 
     def running():
-        return task is not None and not task.done()
+        if task is not None:
+            return not task.done()
+        return st['started'] and not st['finished']      # degraded: all we can see is the handler coroutine
     if running() and st['started'] and not st['finished'] and ext != 'none' and st['fired'] is None:
         st['phase'] = 'ext'
         fire()
@@ -300,7 +325,6 @@ def _run(case, loop):
         'cause': st['cause'],
         'hang': hang,
         'violations': [type(v).__name__ + ':' + str(v)[:80] for v in peer.violations],
-        'registered': len(se.proto.processor.streams),
         'task_exc': None,
     }
     if task is not None and task.done() and not task.cancelled() and task.exception() is not None:
